@@ -395,3 +395,75 @@ func pairPar1Reconstruct(w *World, r *Report) {
 		}
 	}
 }
+
+// CLASSIFY: every error that Repair returns *because there is too little parity*
+// must be the one the exit-code classifier recognises.
+func ruleCLASSIFY(w *World, r *Report) {
+	r.rule("PAIR", rulePAIRText+"; CLASSIFY: on the PAR2 repair path every error return that is decided by the number of parity shards (a dominating comparison on len(d.parityShards)) returns the type the classifier asserts - otherwise 'needed but not possible' is reported as a generic failure")
+	cls := w.Fn("par2.RepairErrorMeansRepairNecessaryButNotPossible")
+	if cls == nil {
+		r.unk("PAIR", "classify", "-", "classifier not found")
+		return
+	}
+	var asserted types.Type
+	for _, b := range cls.Blocks {
+		for _, in := range b.Instrs {
+			if ta, ok := in.(*ssa.TypeAssert); ok {
+				asserted = ta.AssertedType
+			}
+		}
+	}
+	n := 0
+	for _, name := range []string{"(*par2.Decoder).Repair", "(*par2.Decoder).newCoderAndShards"} {
+		fn := w.Fn(name)
+		if fn == nil {
+			continue
+		}
+		k := 0
+		for _, b := range fn.Blocks {
+			if len(b.Instrs) == 0 {
+				continue
+			}
+			ret, ok := b.Instrs[len(b.Instrs)-1].(*ssa.Return)
+			if !ok || len(ret.Results) == 0 {
+				continue
+			}
+			ev := ret.Results[len(ret.Results)-1]
+			if !isErrorType(ev.Type()) || !definitelyNonNilError(ev) {
+				continue
+			}
+			// decided by the parity count?
+			byParity := false
+			for _, f := range domFacts(b) {
+				if !f.Truth {
+					// the fact must be the edge taken towards the error; accept both polarities of the innermost fact only
+				}
+				for _, c := range factCmps(f) {
+					for _, side := range []ssa.Value{c.X, c.Y} {
+						if side == nil {
+							continue
+						}
+						if lc := isBuiltinCall(side, "len"); lc != nil && strings.HasSuffix(deepPath(lc.Call.Args[0]).Path, ".parityShards") {
+							// only if this fact's If is the nearest one deciding this return
+							if f.If.Block() == b.Idom() || f.If.Block() == b {
+								byParity = true
+							}
+						}
+					}
+				}
+			}
+			if !byParity {
+				continue
+			}
+			n++
+			key := fmt.Sprintf("classify:%s:return#%d", name, k)
+			k++
+			if mi, ok := ev.(*ssa.MakeInterface); ok && asserted != nil && types.Identical(mi.X.Type(), asserted) {
+				r.ok("PAIR", key, w.ipos(ret), "too-little-parity error has the classifier's type "+typeStr(asserted))
+			} else {
+				r.bad("PAIR", key, w.ipos(ret), "Repair fails here because there are no (or too few) parity shards, but the error is not "+typeStr(asserted)+": the command exits with a generic failure status instead of 2 ('repair needed but not possible')")
+			}
+		}
+	}
+	r.stat("parity_decided_error_returns", n)
+}
